@@ -1597,6 +1597,95 @@ def check_histories(ctx, res):
 
 # ================================================================================================ explore
 
+# ================================================================================================ part (C): one routine, many inputs
+
+SEQ_PRELUDE = """
+import dataclasses, datetime, decimal, typing
+@dataclasses.dataclass
+class Row:
+    key: int | str
+    tags: typing.Optional[list[int] | list[str]] = None
+"""
+SEQ_TYPES = ["int | str", "typing.Union[int, str, None]", "list[int] | list[str]", "int | float", "float | str", "datetime.date | str",
+             "decimal.Decimal | str", "bool | int | str", "dict[str, int | str]", "list[int | str]", "tuple[int | str, ...]", "Row",
+             "typing.Optional[Row]", "int | datetime.date", "float | datetime.timedelta", "str", "int", "list[int]"]
+SEQ_INPUTS = ["'abc'", "'5'", "'1.5'", "5", "1.5", "float('inf')", "True", "None", "['a', 'b']", "['1', '2']", "[1, 2]", "{'k': 'abc'}",
+              "{'k': '5'}", "('x', '7')", "'2020-01-02'", "datetime.date(2020, 1, 2)", "{'key': 'abc'}", "{'key': '5'}",
+              "Row('abc')", "Row('5', ['1'])", "Row(5, ['a'])", "b'5'", "b'abc'", "datetime.timedelta(seconds=3)", "7200"]
+SEQ_OPS = ["marshal", "unmarshal", "encode", "decode"]
+
+
+def _seq_child(job):
+    """Runs ops in order on ONE process; returns the described outcome of each."""
+    import warnings
+    warnings.simplefilter("ignore")
+    import sys
+    import types
+    import typelib
+    mod = sys.modules.get("c12_seq")
+    if mod is None:
+        mod = types.ModuleType("c12_seq")
+        sys.modules["c12_seq"] = mod
+        exec(SEQ_PRELUDE, mod.__dict__)
+    ns = mod.__dict__
+    out = []
+    for op, texpr, xexpr in job:
+        T = eval(texpr, ns)
+        x = eval(xexpr, ns)
+        try:
+            if op == "marshal":
+                r = typelib.marshal(x, t=T)
+            elif op == "unmarshal":
+                r = typelib.unmarshal(T, x)
+            elif op == "encode":
+                r = typelib.encode(x, t=T)
+            else:
+                r = typelib.decode(T, x if isinstance(x, (bytes, str)) else typelib.compat.json.dumps(x))
+            out.append(["ok", describe(r)])
+        except Exception as e:  # noqa: BLE001
+            out.append(["err", enc.err_class(e)])
+    return out
+
+
+def check_sequences(ctx, res):
+    """Part (C): the routine of ONE annotation fed a random sequence of different inputs (same class, different value; different
+    classes) must answer each exactly as a cold process does for that input alone -- a routine may not learn from earlier inputs."""
+    rng = ctx.rng
+    n_seq = ctx.n(4, 40)
+    cold_jobs = [[(op, t, x)] for op in SEQ_OPS for t in SEQ_TYPES for x in SEQ_INPUTS]
+    warm_jobs = []
+    for op in SEQ_OPS:
+        for t in SEQ_TYPES:
+            for _ in range(n_seq):
+                xs = [rng.choice(SEQ_INPUTS) for _ in range(10)]
+                warm_jobs.append([(op, t, x) for x in xs])
+    outs = iso.map_isolated(_seq_child, cold_jobs + warm_jobs, timeout=120.0)
+    cold = {}
+    for job, o in zip(cold_jobs, outs[:len(cold_jobs)]):
+        if not isinstance(o, list):
+            raise RuntimeError(f"harness: sequence probe failed: {o}")
+        cold[job[0]] = o[0]
+    for job, o in zip(warm_jobs, outs[len(cold_jobs):]):
+        if not isinstance(o, list):
+            raise RuntimeError(f"harness: sequence probe failed: {o}")
+        for i, (step, got) in enumerate(zip(job, o)):
+            res.case({"seq": list(step), "after": i}, i > 0)
+            if got != cold[step]:
+                # minimise: the shortest prefix + this step that still differs
+                hist = job[:i + 1]
+                for k in range(i):
+                    cand = [job[k], job[i]]
+                    r2 = iso.map_isolated(_seq_child, [cand], timeout=60.0)[0]
+                    if isinstance(r2, list) and r2[-1] != cold[step]:
+                        hist = cand
+                        break
+                res.failures.append({"what": f"{step[0]}({step[1]}, {step[2]}) answers differently after other inputs went through the same "
+                                             "routine than in a cold process",
+                                     "input": {"sequence": [list(h) for h in hist]}, "warm": got, "cold": cold[step]})
+                break
+            res.count("oracle:sequence-history-independent")
+
+
 def explore(ctx):
     res = Result()
     res.rule = RULE
@@ -1604,6 +1693,7 @@ def explore(ctx):
     table = {d["name"]: d for d in lean.drive([{"op": "cache.sites"}])[0]}
     res.extra["site_table"] = {k: {x: v[x] for x in ("congruent", "shared", "mutable", "public", "good")} for k, v in table.items()}
     check_sites(ctx, res, table)
+    check_sequences(ctx, res)
     internal = iso.map_isolated(_internal_child, [None], timeout=120.0)[0]
     if isinstance(internal, dict) and "crash" in internal:
         raise RuntimeError(f"harness: internal-site probe failed: {internal}")
@@ -1649,6 +1739,12 @@ def witness(fid):
 def replay(failure):
     inp = failure["input"]
     core.import_typelib()
+    if "sequence" in inp:
+        seq = [tuple(h) for h in inp["sequence"]]
+        w, c = iso.map_isolated(_seq_child, [seq, [seq[-1]]], timeout=60.0)
+        print(json.dumps({"sequence": inp["sequence"], "warm (last)": w[-1] if isinstance(w, list) else w,
+                          "cold (last alone)": c[-1] if isinstance(c, list) else c}, indent=1, default=str))
+        return not (isinstance(w, list) and isinstance(c, list) and w[-1] == c[-1])
     if "ops" in inp and "prog" in inp:
         ops = inp["ops"][:inp.get("at", len(inp["ops"]) - 1) + 1]
         jobs = [{"prog": inp["prog"], "ops": ops}, {"prog": inp["prog"], "ops": cold_deps(ops, len(ops) - 1)}]
